@@ -123,10 +123,19 @@ func (e *Exec) constVal(c *ssa.Const) Value {
 
 func (e *Exec) curG() *G { return e.sch.cur }
 
+// callReal executes fn's body even if a handler is registered for it.
+func (e *Exec) callReal(fn *ssa.Function, args []Value) Value {
+	return e.callBody(fn, args, nil)
+}
+
 func (e *Exec) call(fn *ssa.Function, args []Value, free []Value) Value {
 	if r, ok := e.intrinsic(fn, args, free); ok {
 		return r
 	}
+	return e.callBody(fn, args, free)
+}
+
+func (e *Exec) callBody(fn *ssa.Function, args []Value, free []Value) Value {
 	if fn.Blocks == nil {
 		panic(unsupported("call of function without body: " + fn.String()))
 	}
